@@ -168,7 +168,7 @@ fn random_job(ctx: &Ctx, job: usize, iters: u64) -> Stats {
     let mut st = Stats::new();
     let mut rng = Rng::stream(ctx.seed, "C08.random", job as u64);
     for it in 0..iters {
-        let pool: &[&str] = if it % 4 == 0 { &gen::FANCY_NAMES } else { &gen::PLAIN_NAMES };
+        let pool: &[&str] = if it % 4 == 0 { &gen::FANCY_NAMES } else if it % 8 == 1 { &gen::MARK_NAMES } else { &gen::PLAIN_NAMES };
         let mut cfg = GenCfg::simple(&pool[..4], 5);
         cfg.allow_ref = true;
         cfg.binder_weight = 22;
